@@ -402,6 +402,15 @@ func (m *Model) runStmt(key string, idx int, sp *StmtProg, params []pgwire.Param
 				o.ev = append(o.ev, fmt.Sprintf("op %d copyin err", oi))
 				continue
 			}
+			if inCopy {
+				if copyEnded != "eof" || copyAborted {
+					// a second COPY started while the first has not ended cleanly: not fixed
+					o.loose = true
+					return o
+				}
+				// the first stream ended with CopyDone: this is a new stream
+				copyEnded = ""
+			}
 			inCopy = true
 			lastErr = "ok"
 			o.exp = append(o.exp, expCopyIn(op.Fmt, len(sp.Cols)))
